@@ -12,9 +12,15 @@ Tie:
 Direct oracle (real code only): (a) == (b) for every call; loaders/dumpers obtained earlier behave at the end of
 the history as when they were obtained; ==-equal hints normalise to equal norms; a wider real-only suite adds
 debug_trail variants, location-dependent providers over recursive models, dict/tuple/enum hints.
+Recipes: the pool recipes use `loader` / `dumper` guarded by one or several types (`P[a, b]`) and `enum_by_name` /
+`enum_by_exact_value` with 0..3 predicates (`bound_by_any`), all modelled; `c11_recipes.py` (real code only) runs
+histories over retorts built from every public provider factory in all its argument forms and compares every call
+with a never-used retort built from fresh provider objects (state kept inside a recipe object is shared by a retort
+and its replace()/extend() clones).
 """
 
 import collections.abc
+import enum
 import itertools
 import typing
 from dataclasses import dataclass, fields as dc_fields
@@ -22,6 +28,7 @@ from typing import Annotated, Dict, List, Literal, NewType, Optional, Sequence, 
 
 from extract.c11_sites import extract_c11_sites
 from harness.core import Ctx, Driver, InfraError, canon
+from harness.props import c11_recipes
 
 ID = "C11"
 CLAIM = {
@@ -38,15 +45,23 @@ CLAIM = {
         "empty caches. The unrepaired key of LiteralProvider, value-based literal dedup and name-only union order "
         "are refuted by concrete histories (legacy_* theorems). The list of cached_call sites with their key "
         "arguments and of facade cache dicts is regenerated from the source on every run and must equal the "
-        "modelled list (sites_covered)."
+        "modelled list (sites_covered). Recipe entries are guarded by any number of type predicates (bound / "
+        "bound_by_any / P[a, b]) and wrap loader, dumper, enum_by_name or enum_by_exact_value: preds_accept_spec "
+        "and preds_accept_set (an entry accepts exactly the norms of its predicates; order and repetitions are "
+        "irrelevant), recipe_match_first (the serving entry is the first that accepts and serves - a function of "
+        "recipe and request), multi_pred_enum_by_name_after_any_history (after any history on any retort, a class "
+        "named by one of several predicates of enum_by_name is still loaded and dumped by name)."
     ),
     "note": (
         "Trusted: Lean 4.33 kernel; axioms audited each run. The theorems are about the hand-written model; it is "
         "tied to /repo on every run by the site translator and by differential testing of histories (warmed real "
-        "retort vs fresh real retort vs model) over a pool of ~45 mutually confusable hints. Only DebugTrail.ALL "
-        "retorts and the listed hint forms are modelled; cached_call sites outside the pool (enum, dict, tuple, "
+        "retort vs fresh real retort vs model) over a pool of ~75 mutually confusable hints. Only DebugTrail.ALL "
+        "retorts and the listed hint forms are modelled; cached_call sites outside the pool (flags, dict, tuple, "
         "datetime, ...) are covered by the translator (argument lists) and by the real-only history oracle, not by "
-        "key_sound. Holds for the tree with fixes/C11-literal-cache-key.patch, fixes/C12-stub-identity.patch, "
+        "key_sound. In the model a recipe entry is immutable data; that the provider objects of the real recipe "
+        "(shared by a retort and its clones) keep no state between requests is established only by testing: the "
+        "cache-run correspondence on multi-predicate recipes and the real-only recipe-state histories over every "
+        "public provider factory. Holds for the tree with fixes/C11-literal-cache-key.patch, fixes/C12-stub-identity.patch, "
         "fixes/C15-union-order-total.patch and fixes/C15-literal-dedup.patch applied."
     ),
     "design_ref": "DESIGN.md §4 C11",
@@ -58,7 +73,11 @@ RULE = ("a case is a history of facade calls over the pool; quick: every sequenc
         "the full pool with replace/extend, each under a cleared or polluted normalisation cache; a case is "
         "non-trivial when the history contains a request for a hint that is ==-equal to, or shares cache keys "
         "with, a different later hint (a 'twin'), a recursive model, a failing request followed by further calls, "
-        "or a replace/extend")
+        "or a replace/extend; additionally every sequence of <= 2 requests over the 10-hint enum pool under recipes "
+        "whose entries carry several predicates, random recipes with 0..3 predicates per entry, and (real code only) "
+        "recipe-state histories: every public provider factory x every number of predicates it accepts x "
+        "{no clone, replace, extend}, plus random recipes / histories; non-trivial there: a provider guarded by "
+        "several predicates or a clone")
 ASSUMPTIONS = [
     "equal objects hash equal for every key component (validated on the pool by the hint-eq suite)",
     "closure identity is modelled as equality of closure terms: two closures are the same object iff they were "
@@ -66,6 +85,8 @@ ASSUMPTIONS = [
     "the number and order of lru_cache accesses inside one request are not modelled (unobservable once "
     "normalisation respects ==, which is proved for the model and checked on the real code for the pool)",
     "the normalisation congruence for the real code is C15's subject; C11 checks it on the pool only",
+    "the provider objects of a recipe are stateless (the model's recipe entries are data); checked on the real code by "
+    "the multi-predicate cache-run recipes and the recipe-state histories, not proved",
 ]
 TRUSTED = [
     "CPython dict semantics (lookup = hash then ==) as modelled by association lists under pyEq",
@@ -152,6 +173,38 @@ class ListHolder:
     b: List[Node]
 
 
+class Color(enum.Enum):
+    RED = 1
+    GREEN = 2
+
+
+class Size(enum.Enum):      # the values of Color under other names
+    SMALL = 1
+    BIG = 2
+
+
+class Mood(enum.Enum):      # names of Color / Size, str values
+    RED = "a"
+    BIG = "b"
+
+
+def _mk_e():
+    class E(enum.Enum):     # two distinct Enum classes with the same qualified name; values confusable with bools
+        X = 0
+        Y = 1
+    return E
+
+
+@dataclass
+class EItem:
+    color: Color
+    size: Size
+
+
+ENUM_MEMBERS = {"Color": [("RED", 1), ("GREEN", 2)], "Size": [("SMALL", 1), ("BIG", 2)], "Mood": [("RED", "a"), ("BIG", "b")],
+                "E1": [("X", 0), ("Y", 1)], "E2": [("X", 0), ("Y", 1)]}
+
+
 class Pool:
     """Python objects and their model encodings, built once per run."""
 
@@ -160,11 +213,13 @@ class Pool:
         self.A1, self.A2 = sorted([a, b], key=id)          # uid order = id() order inside a same-name group
         n1, n2 = NewType("NT", int), NewType("NT", int)
         self.NT1, self.NT2 = sorted([n1, n2], key=id)
+        self.E1, self.E2 = sorted([_mk_e(), _mk_e()], key=id)
         self.cls_order = [
             ("int", int), ("bool", bool), ("str", str), ("bytes", bytes), ("none", type(None)),
             ("A1", self.A1), ("A2", self.A2), ("B", B), ("Node", Node), ("PA", PA), ("PB", PB), ("Holder", Holder),
             ("Tree", Tree), ("LitM", LitM), ("Weird", Weird), ("WithBad", WithBad), ("RecBad", RecBad),
             ("ListHolder", ListHolder), ("NT1", self.NT1), ("NT2", self.NT2),
+            ("Color", Color), ("Size", Size), ("Mood", Mood), ("E1", self.E1), ("E2", self.E2), ("EItem", EItem),
         ]
         self.uid = {k: i for i, (k, _) in enumerate(self.cls_order)}
         self.py_cls = {k: c for k, c in self.cls_order}
@@ -183,7 +238,11 @@ class Pool:
             "WithBad": [("x", C("int"), True), ("bad", C("Weird"), True)],
             "RecBad": [("bad", C("Weird"), True), ("next", O("RecBad"), False)],
             "ListHolder": [("a", ("seq", 0, C("Node")), True), ("b", ("seq", 0, C("Node")), True)],
+            "EItem": [("color", C("Color"), True), ("size", C("Size"), True)],
         }
+        for k, ms in ENUM_MEMBERS.items():
+            if [(m.name, m.value) for m in self.py_cls[k]] != ms:
+                raise InfraError(f"pool enum {k}: class and member table differ")
         self.hints = self._hints()
         self._check_models()
         self.univ = self._univ()
@@ -215,11 +274,17 @@ class Pool:
             "ListListI": ("seq", 0, ("seq", 1, C("int"))),
             "Weird": C("Weird"), "WithBad": C("WithBad"), "RecBad": C("RecBad"), "ListWeird": ("seq", 0, C("Weird")),
             "UiW": U("int", "Weird"),
+            "Color": C("Color"), "Size": C("Size"), "Mood": C("Mood"), "E1": C("E1"), "E2": C("E2"), "EItem": C("EItem"),
+            "ListColor": ("seq", 0, C("Color")), "OptSize": U("Size", "none"), "UColorInt": U("Color", "int"),
+            "UE12": U("E1", "E2"), "UE21": U("E2", "E1"), "AnnColor": ("ann", C("Color"), [1]),
         }
         return h
 
     CORE = ["L01", "LFT", "L0F", "LF0", "ListI", "listI", "SeqI", "Uis", "Usi", "U12", "U21", "A1", "Node", "AnnIT",
             "AnnI1", "NT1", "WithBad"]
+    # the hints whose loaders / dumpers depend on which provider of a multi-predicate recipe serves them
+    ENUM_CORE = ["Color", "Size", "Mood", "E1", "E2", "EItem", "ListColor", "OptSize", "int", "Weird"]
+    ENUMS = ["Color", "Size", "Mood", "E1", "E2"]
 
     def py(self, spec):
         k = spec[0]
@@ -289,6 +354,8 @@ class Pool:
                 ent.update(kind="model", fields=[{"n": n, "t": self.js(s), "r": r} for n, s, r in self.model_fields[k]])
             elif k in ("NT1", "NT2"):
                 ent.update(kind="newtype", sup=self.js(("cls", "int")))
+            elif k in ENUM_MEMBERS:
+                ent.update(kind="enum", members=[{"n": n, "v": self.lit_json(v)} for n, v in ENUM_MEMBERS[k]])
             else:
                 ent.update(kind="opaque")
             classes.append(ent)
@@ -307,6 +374,10 @@ class Pool:
             if not all(isinstance(k, str) for k in v):
                 return {"x": "dict-with-non-str-key"}
             return {"d": [[k, self.enc(x)] for k, x in v.items()]}
+        if isinstance(v, enum.Enum):
+            for i, c in enumerate(self.cls_of_uid):
+                if type(v) is c:
+                    return {"e": i, "n": v.name}
         for i, c in enumerate(self.cls_of_uid):
             if type(v) is c and hasattr(v, "__dataclass_fields__"):
                 return {"o": i, "f": [[f.name, self.enc(getattr(v, f.name))] for f in dc_fields(v)]}
@@ -323,6 +394,8 @@ class Pool:
             return {k: self.dec(x) for k, x in j["d"]}
         if "o" in j:
             return self.cls_of_uid[j["o"]](**{k: self.dec(x) for k, x in j["f"]})
+        if "e" in j:
+            return self.cls_of_uid[j["e"]][j["n"]]
         raise InfraError(f"bad value {j}")
 
     # -- families (for signatures) ----------------------------------------------------------
@@ -338,6 +411,7 @@ class Pool:
             "recursive-model": ["Node", "PA", "PB", "Holder", "Tree", "ListNode", "SeqNode", "ListHolder"],
             "newtype": ["NT1", "NT2", "ListNT1"],
             "failing-type": ["Weird", "WithBad", "RecBad", "ListWeird", "UiW"],
+            "enum": ["Color", "Size", "Mood", "E1", "E2", "EItem", "ListColor", "OptSize", "UColorInt", "UE12", "UE21", "AnnColor"],
         }
         for f, names in fam.items():
             if name in names:
@@ -361,12 +435,18 @@ MODEL_DATA = {
     "SeqNode": [[{"v": 1, "next": {"v": 2}}], [{"v": True}]],
     "OptNode": [None, {"v": 1, "next": {"v": 2}}, {"v": "a"}],
     "WithBad": [{"x": 1, "bad": 1}], "RecBad": [{"bad": 1}],
+    "EItem": [{"color": 1, "size": 2}, {"color": "RED", "size": "BIG"}, {"color": "RED", "size": 2}, {"color": True, "size": "a"},
+              {"color": 3}],
 }
+ENUM_DATA = [1, 2, "RED", "BIG", "GREEN", "SMALL", "X", "a", 0, True, False, 3, None, [1], "b", "Y"]
 SPECIAL = {
     "ListL01": [[0, 1], [True], [False, 0], [0, "a"]], "ListLFT": [[0, 1], [True], [False, 0]],
     "ListA1": [[{"x": 1}], [{"x": "a"}, {"x": 2}]], "ListA2": [[{"x": 1}], [{"x": True}]],
     "ListAnnIT": [[1, True], [1]], "ListAnnI1": [[1, True], [1]], "ListListI": [[[1], [2, 3]], [[True]], [1]],
     "ListNT1": [[1], [True]],
+    "Color": ENUM_DATA, "Size": ENUM_DATA, "Mood": ENUM_DATA, "E1": ENUM_DATA, "E2": ENUM_DATA, "AnnColor": ENUM_DATA,
+    "OptSize": ENUM_DATA, "UColorInt": ENUM_DATA, "UE12": ENUM_DATA, "UE21": ENUM_DATA,
+    "ListColor": [[1, 2], ["RED"], ["RED", 2], [True, "a"], []],
 }
 
 
@@ -374,6 +454,8 @@ def load_values(pool: Pool, name: str):
     if name in MODEL_DATA:
         return MODEL_DATA[name] + [None, 1, []]
     if name in SPECIAL:
+        if SPECIAL[name] is ENUM_DATA:
+            return ENUM_DATA
         return SPECIAL[name] + [None, 1, "a", {"x": 1}]
     return GENERIC
 
@@ -384,7 +466,18 @@ def dump_values(pool: Pool, name: str):
     o = lambda k, **f: {"o": u[k], "f": [[n, v] for n, v in f.items()]}  # noqa: E731
     node = o("Node", v=1, next=o("Node", v=2, next=None))
     pa = o("PA", b=o("PB", w=1, a=o("PA", b=o("PB", w=2, a=None))))
+    e = lambda k, n: {"e": u[k], "n": n}  # noqa: E731
+    members = [e("Color", "RED"), e("Size", "BIG"), e("Mood", "RED"), e("E1", "X"), e("E2", "Y"), e("Color", "GREEN"), e("E1", "Y")]
+    odd = [1, "RED", None, {"l": [1]}]
     table = {
+        "Color": [e("Color", "RED"), e("Color", "GREEN")] + members[1:3] + odd, "Size": [e("Size", "SMALL"), e("Size", "BIG")] + members[:1] + odd,
+        "Mood": [e("Mood", "RED"), e("Mood", "BIG"), e("Color", "RED")] + odd, "E1": [e("E1", "X"), e("E1", "Y"), e("E2", "X")] + odd,
+        "E2": [e("E2", "X"), e("E2", "Y"), e("E1", "X")] + odd, "AnnColor": [e("Color", "RED"), e("Size", "BIG"), 1],
+        "OptSize": [None, e("Size", "BIG"), e("Color", "RED"), 1], "UColorInt": [e("Color", "RED"), 1, True, e("Size", "BIG"), "a"],
+        "UE12": [e("E1", "X"), e("E2", "Y"), e("Color", "RED"), 0], "UE21": [e("E1", "X"), e("E2", "Y"), e("Color", "RED")],
+        "ListColor": [{"l": [e("Color", "RED"), e("Color", "GREEN")]}, {"t": [e("Color", "RED")]}, {"l": [e("Size", "BIG")]}, {"l": []}],
+        "EItem": [o("EItem", color=e("Color", "RED"), size=e("Size", "BIG")), o("EItem", color=e("Size", "BIG"), size=e("Size", "BIG")),
+                  o("EItem", color=1, size=e("Size", "SMALL"))],
         "A1": [o("A1", x=1), o("A2", x=2), o("B", x=True)], "A2": [o("A2", x=1), o("A1", x=2)], "B": [o("B", x=1)],
         "U12": [o("A1", x=1), o("A2", x=2), o("B", x=3), 5], "U21": [o("A1", x=1), o("A2", x=2), o("B", x=3)],
         "U12n": [o("A1", x=1), o("A2", x=2), None], "U1B": [o("A1", x=1), o("B", x=2), o("A2", x=3)],
@@ -423,18 +516,20 @@ def conv_values(pool: Pool, s: str):
 class Real:
     def __init__(self, pool: Pool):
         import adaptix
-        from adaptix import Retort, dumper, loader
+        from adaptix import P, Retort, dumper, enum_by_exact_value, enum_by_name, loader
         import importlib
         nt_mod = importlib.import_module("adaptix._internal.type_tools.normalize_type")
         from adaptix.conversion import ConversionRetort
         from adaptix.load_error import LoadError
         self.adaptix = adaptix
         self.Retort, self.ConversionRetort, self.loader, self.dumper = Retort, ConversionRetort, loader, dumper
+        self.P, self.enum_by_name, self.enum_by_exact_value = P, enum_by_name, enum_by_exact_value
         self.LoadError = LoadError
         self.nt = nt_mod
         self.pool = pool
         self.fresh_memo: dict[str, dict] = {}
-        self.junk = [Tuple[tuple([int] * (i + 2))] for i in range(160)]
+        # 160 distinct hints (> maxsize) that evict every entry of the lru cache; any distinct hints do, so cheap ones
+        self.junk = [Tuple[int, Literal[10_000 + i]] for i in range(160)]
 
     # -- normalisation cache --------------------------------------------------------------
     def clear_norm(self):
@@ -456,10 +551,23 @@ class Real:
         return lambda v, fid=fid: ("user", fid, v)
 
     def recipe(self, entries):
+        """NEW provider objects for the entries.  `{"dir", "t", "fid"}`: loader(t, f) / dumper(t, f);
+        `{"dir", "ts", "fid"}`: the predicate names several types, loader(P[t1, t2, ...], f);
+        `{"p": "enum_by_name" | "enum_by_exact_value", "ts"}`: the factory called with 0, 1 or several predicates"""
         out = []
         for e in entries:
-            mk = self.loader if e["dir"] == "load" else self.dumper
-            out.append(mk(self.pool.hint_py(e["t"]), self.user_fn(e["fid"])))
+            ts = [self.pool.hint_py(t) for t in e["ts"]] if "ts" in e else [self.pool.hint_py(e["t"])]
+            kind = e.get("p", "user")
+            if kind == "user":
+                mk = self.loader if e["dir"] == "load" else self.dumper
+                pred = self.P.ANY if not ts else ts[0] if "ts" not in e else self.P[tuple(ts)]
+                out.append(mk(pred, self.user_fn(e["fid"])))
+            elif kind == "enum_by_name":
+                out.append(self.enum_by_name(*ts))
+            elif kind == "enum_by_exact_value":
+                out.append(self.enum_by_exact_value(*ts))
+            else:
+                raise InfraError(f"bad recipe entry {e}")
         return out
 
     def make(self, cfg):
@@ -506,7 +614,12 @@ class Real:
     def fresh(self, cfg, f):
         key = canon([cfg, f])
         if key not in self.fresh_memo:
-            self.fresh_memo[key] = self.call(self.make(cfg), f)
+            # a never-used retort of the kind the call needs (the other half of the pair would never be touched)
+            if f["f"] in ("get_converter", "convert"):
+                pair = (None, self.ConversionRetort())
+            else:
+                pair = (self.Retort(strict_coercion=cfg["strict"], recipe=self.recipe(cfg["recipe"])), None)
+            self.fresh_memo[key] = self.call(pair, f)
         return self.fresh_memo[key]
 
     def run_case(self, case):
@@ -595,10 +708,32 @@ EXT_RECIPES = [
     [{"dir": "load", "t": "int", "fid": 7}], [{"dir": "load", "t": "LFT", "fid": 8}], [{"dir": "load", "t": "L01", "fid": 9}],
     [{"dir": "load", "t": "U21", "fid": 10}], [{"dir": "dump", "t": "A2", "fid": 11}], [{"dir": "load", "t": "listI", "fid": 12}],
     [{"dir": "load", "t": "AnnIT", "fid": 13}, {"dir": "dump", "t": "AnnIT", "fid": 14}],
+    [{"p": "enum_by_name", "ts": ["Color", "E1"]}], [{"p": "enum_by_exact_value", "ts": ["Size", "Color"]}],
+    [{"p": "user", "dir": "load", "fid": 15, "ts": ["Size", "int", "L01"]}],
 ]
 
 
-def gen_cfg(rng):
+def gen_entry(pool: Pool, rng, fid):
+    """one recipe entry guarded by 0 (enum factories only), 1, 2 or 3 type predicates"""
+    r = rng.random()
+    if r < 0.6:
+        kind = "enum_by_name" if rng.random() < 0.65 else "enum_by_exact_value"
+        k = rng.choice([0, 1, 2, 2, 3, 3])
+        ts = [rng.choice(Pool.ENUMS) if rng.random() < 0.8 else rng.choice(["int", "EItem", "ListColor", "AnnColor", "OptSize", "A1"])
+              for _ in range(k)]
+        return {"p": kind, "ts": ts}
+    fam = rng.choice([Pool.ENUMS + ["EItem", "ListColor", "OptSize"], Pool.CORE, list(pool.hints)])
+    return {"p": "user", "dir": rng.choice(["load", "load", "dump"]), "fid": fid,
+            "ts": [rng.choice(fam) for _ in range(rng.choice([1, 2, 2, 3]))]}
+
+
+def gen_recipe(pool: Pool, rng, n, fid0=20):
+    return [gen_entry(pool, rng, fid0 + i) for i in range(n)]
+
+
+def gen_cfg(rng, pool=None):
+    if pool is not None and rng.random() < 0.4:
+        return {"strict": rng.random() < 0.8, "recipe": gen_recipe(pool, rng, rng.choice([1, 2, 2, 3]))}
     return {"strict": rng.random() < 0.8, "recipe": rng.choice(CFG_RECIPES)}
 
 
@@ -624,13 +759,52 @@ def exhaustive_cases(pool: Pool, rng, max_len: int):
                        "history": hist, "gen": f"exhaustive-{n}"}
 
 
+def recipe_hints(cfg):
+    return [t for e in cfg["recipe"] for t in (e["ts"] if "ts" in e else [e["t"]])]
+
+
+def multi_pred(recipe) -> bool:
+    return any(len(e.get("ts", ())) >= 2 for e in recipe)
+
+
+ENUM_RECIPES = [
+    [{"p": "enum_by_name", "ts": ["Size", "E1", "Color"]}],
+    [{"p": "enum_by_name", "ts": ["E1", "E2", "Mood"]}, {"p": "user", "dir": "load", "fid": 3, "ts": ["int", "Size"]}],
+    [{"p": "enum_by_exact_value", "ts": ["Mood", "E2"]}, {"p": "enum_by_name", "ts": []}],
+    [{"p": "user", "dir": "dump", "fid": 4, "ts": ["Color", "E1", "ListColor"]}, {"p": "enum_by_name", "ts": ["int", "Size", "E2"]}],
+    [{"p": "enum_by_name", "ts": ["Size"]}, {"p": "enum_by_exact_value", "ts": ["Color", "Size"]}, {"p": "enum_by_name", "ts": ["Color", "Mood"]}],
+]
+
+
+def exhaustive_enum_cases(pool: Pool, rng, max_len: int, salt: int):
+    """every sequence of <= max_len get_loader / get_dumper requests over the enum core pool (enums, a model and
+    containers of enums, a plain and a failing type), each under one of the multi-predicate recipes (which one rotates
+    with the sequence number and the seed), followed by a probe sweep over that pool"""
+    core = Pool.ENUM_CORE
+    k = salt
+    for n in range(0, max_len + 1):
+        for seq in itertools.product(core, repeat=n):
+            for d in ("load", "dump"):
+                k += 1
+                hist = [F("get_loader" if d == "load" else "get_dumper", h=h) for h in seq]
+                start = rng.randrange(len(core))
+                hist += sweep(pool, core[start:] + core[:start], rng, dirs=(d,), per=2)
+                yield {"suite": "cache-run", "cfg": {"strict": True, "recipe": ENUM_RECIPES[k % len(ENUM_RECIPES)]},
+                       "pollute": [], "junk": False, "history": hist, "gen": f"exhaustive-multi-pred-recipe-{n}"}
+
+
 def random_case(pool: Pool, rng, max_len: int):
     names = list(pool.hints)
-    cfg = gen_cfg(rng)
+    cfg = gen_cfg(rng, pool)
     case = {"suite": "cache-run", "cfg": cfg, **gen_pollution(rng), "gen": "random"}
     n_ret = 1
     hist = []
     focus = rng.sample(names, rng.randint(2, 5)) + rng.sample(Pool.CORE, 2)
+    if any("p" in e for e in cfg["recipe"]):
+        # a generated recipe: the hints its predicates name, their family, and hints no predicate accepts
+        case["gen"] = "random-multi-pred-recipe" if multi_pred(cfg["recipe"]) else "random-generated-recipe"
+        named = list(dict.fromkeys(recipe_hints(cfg)))
+        focus = rng.sample(named, min(len(named), 3)) + rng.sample(Pool.ENUM_CORE, 3) + rng.sample(names, 2)
     for _ in range(rng.randint(1, max_len)):
         r = rng.random()
         i = rng.randrange(n_ret)
@@ -653,7 +827,7 @@ def random_case(pool: Pool, rng, max_len: int):
             hist.append({"op": "replace", "i": i, "strict": rng.choice([None, True, False])})
             n_ret += 1
         else:
-            rec = rng.choice(EXT_RECIPES)
+            rec = rng.choice(EXT_RECIPES) if rng.random() < 0.6 else gen_recipe(pool, rng, 1, fid0=30 + n_ret)
             hist.append({"op": "extend", "i": i, "recipe": rec})
             n_ret += 1
     # probes: the focus hints and their twins on every retort
@@ -696,7 +870,14 @@ def to_model_case(pool: Pool, case, norm0_names):
         return g
 
     def rec(entries):
-        return [{"dir": e["dir"], "t": pool.hint_js(e["t"]), "fid": e["fid"]} for e in entries]
+        out = []
+        for e in entries:
+            ts = [pool.hint_js(t) for t in e["ts"]] if "ts" in e else [pool.hint_js(e["t"])]
+            if e.get("p", "user") == "user":
+                out.append({"p": "user", "dir": e["dir"], "fid": e["fid"], "ts": ts})
+            else:
+                out.append({"p": e["p"], "ts": ts})
+        return out
 
     hist = []
     for op in case["history"]:
@@ -767,6 +948,9 @@ def check_case(ctx: Ctx, pool: Pool, real: Real, case, model_reply, count=True):
             else:
                 ctx.dist["op-" + op["op"]] += 1
         ctx.dist["unmodelled-outcomes"] += unmodelled
+        recipes = [case["cfg"]["recipe"]] + [op["recipe"] for op in case["history"] if op["op"] == "extend"]
+        ctx.dist["cache-run:cases-with-multi-predicate-entry"] += any(multi_pred(r) for r in recipes)
+        ctx.dist["cache-run:cases-with-enum-provider-entry"] += any(e.get("p", "user") != "user" for r in recipes for e in r)
         for row in rows:
             if row is not None:
                 ctx.dist["outcome-" + ("ok" if "ok" in row["real"] else row["real"]["err"][0])] += 1
@@ -1218,15 +1402,19 @@ def run(ctx: Ctx):
         # 17^3 sequences are too many for both directions: keep every third
         cases = [c for k, c in enumerate(cases) if c["gen"] != "exhaustive-3" or k % 3 == ctx.seed % 3]
     run_cases(ctx, pool, real, drv, cases)
+    run_cases(ctx, pool, real, drv, list(exhaustive_enum_cases(pool, ctx.rng, 2, ctx.seed)))
     total = ctx.budget(380, 6500)
     for lo in range(0, total, 500):
         run_cases(ctx, pool, real, drv, [random_case(pool, ctx.rng, 12) for _ in range(min(500, total - lo))])
     wide_suite(ctx, pool, real, ctx.budget(250, 4000), directed=True)
     closure_state_suite(ctx, ctx.budget(90, 1500))
+    c11_recipes.recipe_state_suite(ctx, ctx.budget(50, 1500), per_form=ctx.budget(1, 3))
     ctx.extra["exhaustive"] = False
     ctx.extra["exhaustive_part"] = (f"every sequence of <= {max_len} get_loader (resp. get_dumper) requests over the "
                                     f"{len(Pool.CORE)}-hint core pool, each followed by a probe sweep over the core pool")
     ctx.extra["pool"] = {"hints": len(pool.hints), "classes": len(pool.cls_order)}
+    ctx.extra["multi_predicate_recipes"] = {k: v for k, v in sorted(ctx.dist.items())
+                                            if "multi-pred" in k or "generated-recipe" in k or k.startswith("cache-run:")}
 
 
 def search(ctx: Ctx):
@@ -1242,7 +1430,7 @@ def search(ctx: Ctx):
     suite_hint_eq(ctx, pool, real, None)
     if ctx.failures:
         return
-    for c in exhaustive_cases(pool, ctx.rng, 2):
+    for c in itertools.chain(exhaustive_cases(pool, ctx.rng, 2), exhaustive_enum_cases(pool, ctx.rng, 2, ctx.seed)):
         check_case(ctx, pool, real, c, None)
         if ctx.failures:
             return
@@ -1255,6 +1443,8 @@ def search(ctx: Ctx):
         converter_history_suite(ctx)
     if not ctx.failures:
         closure_state_suite(ctx, 1000)
+    if not ctx.failures:
+        c11_recipes.recipe_state_suite(ctx, 1500, per_form=3, stop_on_failure=True)
 
 
 def replay(ctx: Ctx, case) -> bool:
@@ -1270,6 +1460,8 @@ def replay(ctx: Ctx, case) -> bool:
             ctx.fail("norm-congruence", "==-equal hints normalise differently", case)
     elif suite == "wide":
         Wide(pool).check(ctx, real, case, count=False)
+    elif suite == "recipe-state":
+        return c11_recipes.replay(ctx, case)
     elif suite == "wide-norm":
         w = Wide(pool)
         if real.raw_norm(w.hints[case["a"]]) != real.raw_norm(w.hints[case["b"]]):
